@@ -37,6 +37,8 @@ def tasks(tier):
     n = len(M.configs(tier))
     ts = [{"what": "cfg", "tier": tier, "i": i} for i in range(n)]
     ts += [{"what": "macro", "i": i} for i in range(len(M.MACROS))]
+    # the same macro programs inside a package, outer variables bound at package level (p.x)
+    ts += [{"what": "macro", "i": i, "pkg": "p"} for i in range(len(M.MACROS)) if "x" in M.MACROS[i][1]]
     ts += [{"what": "decl"}]
     return ts
 
@@ -51,7 +53,7 @@ def run_task(task, kf):
                 for ref in M.REFS:
                     out.append(explore.explore(_cfg_harness(b, pkg, ref, runner, annotate), kf, profile_root=loader.SRC))
         elif task["what"] == "macro":
-            out.append(explore.explore(_macro_harness(task["i"], runner), kf, profile_root=loader.SRC))
+            out.append(explore.explore(_macro_harness(task["i"], runner, task.get("pkg")), kf, profile_root=loader.SRC))
         else:
             out.append(explore.explore(_decl_harness(runner), kf, profile_root=loader.SRC))
     return out
@@ -132,27 +134,30 @@ def _s(r):
         return type(r).__name__
 
 
-def _macro_harness(i, runner):
+def _macro_harness(i, runner, pkg=None):
+    """pkg: the environment has this package and the outer variables are bound inside it (`p.x`): the reference `x` outside a
+    macro resolves to `p.x`, inside the macro body the iteration variable still shadows it"""
     celpy, ct, ev = common.mods()
     src, names, f = M.MACROS[i]
     vars = {n: z3.Int(n) for n in names}
     pre = []
     for v in vars.values():
         pre += [v >= -LIM, v <= LIM]
-    prog = common.make_program(src, runner)
+    prog = common.make_program(src, runner, package=pkg)
     exp = f(vars)
 
     def run(vals):
-        b = {n: ct.IntType(mk(SInt, vars[n], vals[n])) for n in names}
+        b = {(f"{pkg}.{n}" if pkg else n): ct.IntType(mk(SInt, vars[n], vals[n])) for n in names}
         kd, r = common.outcome(lambda: prog.evaluate(b))
+        tags = {"package": pkg or ""}
         if kd != "value":
-            return [Ob(f"C12/macro-scope/value@{runner}", z3.BoolVal(False), note=f"`{src}`: {kd} {_s(r)}")]
-        return [Ob(f"C12/macro-scope/value@{runner}", tm(r) == exp, note=f"`{src}`")]
+            return [Ob(f"C12/macro-scope/value@{runner}", z3.BoolVal(False), note=f"`{src}`: {kd} {_s(r)}", tags=tags)]
+        return [Ob(f"C12/macro-scope/value@{runner}", tm(r) == exp, note=f"`{src}`", tags=tags)]
 
     def witness(vals):
-        return {"check": "c12.macro", "args": enc({"i": i, "runner": runner, "vals": vals})}
+        return {"check": "c12.macro", "args": enc({"i": i, "runner": runner, "vals": vals, "pkg": pkg})}
 
-    return Harness(id=f"C12/macro/{i}@{runner}", vars=vars, pre=pre, run=run, witness=witness, max_paths=60)
+    return Harness(id=f"C12/macro/{i}{'/package-' + pkg if pkg else ''}@{runner}", vars=vars, pre=pre, run=run, witness=witness, max_paths=60)
 
 
 def _decl_harness(runner):
